@@ -190,3 +190,194 @@ func (r *reader) atom() Expr {
 	}
 	panic(fmt.Sprintf("unexpected token %s", t.Kind))
 }
+
+// ReadPipeline reads back a pipeline printed by this package (used by replays).
+func ReadPipeline(text string) (p *Pipeline, err error) {
+	r := &reader{src: text, toks: reftok.Scan(text)}
+	defer func() {
+		if x := recover(); x != nil {
+			if s, ok := x.(string); ok {
+				p, err = nil, fmt.Errorf("%s", s)
+				return
+			}
+			panic(x)
+		}
+	}()
+	p = r.pipeline()
+	if r.pos != len(r.toks) {
+		panic(fmt.Sprintf("trailing input at token %d", r.pos))
+	}
+	return p, nil
+}
+
+func (r *reader) ident() Ident {
+	if r.pos >= len(r.toks) {
+		panic("expected identifier at end")
+	}
+	t := r.toks[r.pos]
+	if t.Kind != reftok.Ident && t.Kind != reftok.QuotedIdent {
+		panic(fmt.Sprintf("expected identifier at token %d", r.pos))
+	}
+	r.pos++
+	return Ident{Name: t.Value, Quoted: t.Kind == reftok.QuotedIdent}
+}
+
+func (r *reader) isWord(w string) bool {
+	return r.pos < len(r.toks) && r.toks[r.pos].Kind == reftok.Ident && r.toks[r.pos].Value == w
+}
+
+func (r *reader) sortTerm() SortTerm {
+	t := SortTerm{X: r.or()}
+	if r.isWord("asc") || r.isWord("desc") {
+		t.Dir = r.toks[r.pos].Value
+		r.pos++
+	}
+	if r.isWord("nulls") {
+		r.pos++
+		t.Nulls = r.toks[r.pos].Value
+		r.pos++
+	}
+	return t
+}
+
+// column reads [name =] expr
+func (r *reader) column() Column {
+	if (r.peek() == reftok.Ident || r.peek() == reftok.QuotedIdent) && r.pos+1 < len(r.toks) && r.toks[r.pos+1].Kind == reftok.Assign {
+		id := r.ident()
+		r.pos++
+		return Column{Name: &id, X: r.or()}
+	}
+	return Column{X: r.or()}
+}
+
+func (r *reader) pipeline() *Pipeline {
+	p := &Pipeline{Source: r.ident()}
+	for r.peek() == reftok.Pipe {
+		r.pos++
+		if r.pos >= len(r.toks) {
+			panic("operator name expected")
+		}
+		name := r.toks[r.pos].Value
+		r.pos++
+		switch name {
+		case "count":
+			p.Ops = append(p.Ops, &Count{})
+		case "where", "filter":
+			p.Ops = append(p.Ops, &Where{Kw: name, Pred: r.or()})
+		case "sort", "order":
+			r.expect(reftok.By)
+			op := &Sort{Kw: name}
+			for {
+				op.Terms = append(op.Terms, r.sortTerm())
+				if r.peek() != reftok.Comma {
+					break
+				}
+				r.pos++
+			}
+			p.Ops = append(p.Ops, op)
+		case "take", "limit":
+			p.Ops = append(p.Ops, &Take{Kw: name, N: r.or()})
+		case "top":
+			n := r.or()
+			r.expect(reftok.By)
+			p.Ops = append(p.Ops, &Top{N: n, By: r.sortTerm()})
+		case "project":
+			op := &Project{}
+			for {
+				id := r.ident()
+				c := Column{Name: &id}
+				if r.peek() == reftok.Assign {
+					r.pos++
+					c.X = r.or()
+				}
+				op.Cols = append(op.Cols, c)
+				if r.peek() != reftok.Comma {
+					break
+				}
+				r.pos++
+			}
+			p.Ops = append(p.Ops, op)
+		case "extend":
+			op := &Extend{}
+			for {
+				op.Cols = append(op.Cols, r.column())
+				if r.peek() != reftok.Comma {
+					break
+				}
+				r.pos++
+			}
+			p.Ops = append(p.Ops, op)
+		case "summarize":
+			op := &Summarize{}
+			for r.peek() != reftok.By && r.peek() != reftok.Pipe && r.peek() != reftok.RParen && r.pos < len(r.toks) {
+				op.Cols = append(op.Cols, r.column())
+				if r.peek() == reftok.Comma {
+					r.pos++
+					if r.peek() == reftok.By {
+						op.TrailingComma = true
+					}
+				} else {
+					break
+				}
+			}
+			if r.peek() == reftok.By {
+				r.pos++
+				op.HasBy = true
+				for {
+					op.By = append(op.By, r.column())
+					if r.peek() != reftok.Comma {
+						break
+					}
+					r.pos++
+				}
+			}
+			p.Ops = append(p.Ops, op)
+		case "join":
+			op := &Join{}
+			if r.isWord("kind") {
+				r.pos++
+				r.expect(reftok.Assign)
+				op.Kind = r.toks[r.pos].Value
+				r.pos++
+			}
+			r.expect(reftok.LParen)
+			op.Right = r.pipeline()
+			r.expect(reftok.RParen)
+			if !r.isWord("on") {
+				panic("expected on")
+			}
+			r.pos++
+			for {
+				op.On = append(op.On, r.or())
+				if r.peek() != reftok.Comma {
+					break
+				}
+				r.pos++
+			}
+			p.Ops = append(p.Ops, op)
+		case "as":
+			p.Ops = append(p.Ops, &As{Name: r.ident()})
+		case "render":
+			op := &Render{Chart: r.ident()}
+			if r.isWord("with") {
+				r.pos++
+				op.With = true
+				r.expect(reftok.LParen)
+				for {
+					name := r.ident()
+					r.expect(reftok.Assign)
+					op.Props = append(op.Props, Prop{Name: name, Value: r.or()})
+					if r.peek() != reftok.Comma {
+						break
+					}
+					r.pos++
+				}
+				r.expect(reftok.RParen)
+			}
+			p.Ops = append(p.Ops, op)
+		default:
+			panic("unknown operator " + name)
+		}
+	}
+	return p
+}
